@@ -17,13 +17,17 @@ import (
 )
 
 // Concurrent executions: 4-8 goroutines run single- and multi-statement transactions on a recorded
-// file-backed instance with a small pool while another goroutine forces checkpoints; the same trace
+// file-backed instance with a small pool while another goroutine forces checkpoints, with the log device slowed down by 0 / 2 / 5 ms per write (a log write counts as stable when its call has returned); the same trace
 // monitor (W1-W3) is applied to the recorded trace. Commit-return markers carry the engine's txn id.
 type ConcCase struct {
 	Clients int   `json:"clients"`
 	Ops     int   `json:"ops"`
 	KB      int   `json:"kb"`
 	Seed    int64 `json:"seed"`
+	// LogDelayUS: the recorder keeps every log write "in progress" for this long (a slow log device), so that page
+	// writes of other goroutines can fall into the window
+	LogDelayUS int `json:"log_delay_us,omitempty"`
+	Bulk       int `json:"bulk,omitempty"` // extra ~900-byte rows in u: the working set exceeds the pool, dirty pages are evicted by the clients themselves
 }
 
 func runConc(c *ConcCase, ws *crasheng.WALStats) *vf.Failure {
@@ -35,6 +39,7 @@ func runConc(c *ConcCase, ws *crasheng.WALStats) *vf.Failure {
 	db := dbh.Open(name, c.KB, true)
 	crashsim.Uninstall()
 	defer func() { func() { defer func() { recover() }(); db.Stop() }() }()
+	defer func() { rec.LogDelay = 0 }()
 	if _, err := db.FrontDoor("CREATE TABLE t(id int, g int, v int);"); err != nil {
 		return vf.Failf("create-error", "%v", err)
 	}
@@ -45,6 +50,11 @@ func runConc(c *ConcCase, ws *crasheng.WALStats) *vf.Failure {
 		db.FrontDoor(fmt.Sprintf("INSERT INTO t(id, g, v) VALUES (%d, %d, 0);", i, i%3))
 		db.FrontDoor(fmt.Sprintf("INSERT INTO u(id, s) VALUES (%d, '%s');", i, strings.Repeat("p", 300+i)))
 	}
+	for i := 0; i < c.Bulk; i++ {
+		db.FrontDoor(fmt.Sprintf("INSERT INTO u(id, s) VALUES (%d, '%s');", 30+i, strings.Repeat("b", 880+i%40)))
+	}
+	uRows := 30 + c.Bulk
+	rec.LogDelay = time.Duration(c.LogDelayUS) * time.Microsecond
 	var mu sync.Mutex
 	var commits []crasheng.CommitPoint
 	var wg sync.WaitGroup
@@ -68,11 +78,15 @@ func runConc(c *ConcCase, ws *crasheng.WALStats) *vf.Failure {
 					case 1:
 						q = fmt.Sprintf("INSERT INTO u(id, s) VALUES (%d, '%s');", atomic.AddInt64(&nextID, 1), strings.Repeat("n", 200+rng.Intn(900)))
 					case 2:
-						q = fmt.Sprintf("UPDATE u SET s = '%s' WHERE id = %d;", strings.Repeat("q", 100+rng.Intn(1000)), rng.Intn(30))
+						q = fmt.Sprintf("UPDATE u SET s = '%s' WHERE id = %d;", strings.Repeat("q", 100+rng.Intn(1000)), rng.Intn(uRows))
 					case 3:
 						q = fmt.Sprintf("DELETE FROM u WHERE id = %d;", 1000+rng.Intn(40))
 					default:
 						q = fmt.Sprintf("SELECT id, v FROM t WHERE g = %d;", rng.Intn(3))
+						if c.Bulk > 0 && rng.Intn(2) == 0 {
+							a := rng.Intn(uRows)
+							q = fmt.Sprintf("SELECT id FROM u WHERE id >= %d AND id <= %d;", a, a+20)
+						}
 					}
 					if _, err := t.ExecSQL(q, nil); err == nil && !t.Done && !strings.HasPrefix(q, "SELECT") {
 						writes++
@@ -121,13 +135,18 @@ func runConc(c *ConcCase, ws *crasheng.WALStats) *vf.Failure {
 
 func TestConcurrent(t *testing.T) {
 	s := vf.Open("C08")
-	s.Rule = "Case (concurrent) = 4-8 goroutines running 1-3-statement transactions (multi-row updates, inserts of 200-1100 byte rows, relocating updates, deletes, reads; commit or abort) on a recorded file-backed instance with a pool of 40-60 frames while another goroutine forces checkpoints; oracle W1-W3 on the recorded trace, W2 at every commit return of a writer (marker carries the engine transaction id). Non-trivial = as above."
+	s.Rule = "Case (concurrent) = 4-8 goroutines running 1-3-statement transactions (multi-row updates, inserts of 200-1100 byte rows, relocating updates, deletes, reads; commit or abort) on a recorded file-backed instance with a pool of 40-60 frames (in two thirds of the runs the table u holds 160-240 extra long rows, so that clients evict dirty pages) while another goroutine forces checkpoints, with the log device slowed down by 0 / 2 / 5 ms per write (a log write counts as stable when its call has returned); oracle W1-W3 on the recorded trace, W2 at every commit return of a writer (marker carries the engine transaction id). Non-trivial = as above."
 	s.Assumptions = assumptions
 	defer func() { s.Flush(!t.Failed()) }()
 	rng := rand.New(rand.NewSource(s.Seed*7 + int64(s.Shard)))
-	runs := s.Pick(4, 40)
+	runs := s.Pick(10, 60)
 	for i := 0; i < runs; i++ {
-		c := &ConcCase{Clients: 4 + rng.Intn(5), Ops: s.Pick(40, 120), KB: 160 + 40*rng.Intn(3), Seed: rng.Int63()}
+		c := &ConcCase{Clients: 4 + rng.Intn(5), Ops: s.Pick(40, 120), KB: 160 + 40*rng.Intn(3), Seed: rng.Int63(), LogDelayUS: []int{0, 2000, 5000}[rng.Intn(3)], Bulk: []int{0, 200, 240}[rng.Intn(3)]}
+		if i%2 == 1 {
+			// the tightest setting: few clients, a pool barely above what they pin, a working set several times the pool and a
+			// slow log device - pages dirtied a moment ago are evicted while another client's log write is still in progress
+			c.Clients, c.KB, c.Bulk, c.LogDelayUS = 3+rng.Intn(2), 96+16*rng.Intn(2), 240, 3000+2000*rng.Intn(2)
+		}
 		ws := &crasheng.WALStats{}
 		f, _ := vf.WithTimeout(200*time.Second, func() *vf.Failure { return runConc(c, ws) })
 		s.Count(c, ws.WriterCommits > 0 && ws.HeapPageWrites > 0, "concurrent")
